@@ -142,7 +142,7 @@ func (c Cfg) CompressionName() string {
 		return ""
 	}
 	if c.Custom != "" {
-		return "x-" + c.Custom
+		return CustomFormat(c.Custom)
 	}
 	return c.Compression
 }
@@ -206,4 +206,14 @@ type Fault struct {
 	Off2   int64  `json:"off2,omitempty"`  // swap partner
 	Len    int64  `json:"len,omitempty"`   // swap/overwrite length
 	Mode   string `json:"mode,omitempty"`  // err delivery mode: "with_data" | "next_call"
+}
+
+// CustomFormat is the compression string a simulated custom codec announces.
+// One codec has a name longer than 16 characters (chunk headers are usually
+// parsed through small fixed buffers).
+func CustomFormat(custom string) string {
+	if custom == "xorlong" {
+		return "x-xor-with-a-long-name"
+	}
+	return "x-" + custom
 }
